@@ -65,6 +65,17 @@ func (r *RoutingTable) verifyRoutingTable(id uint64, table map[uint64]*route) er
 	if r.config.PartitionCount != uint64(len(table)) {
 		return fmt.Errorf("invalid partition count: %d", len(table))
 	}
+
+	// The table is applied without any further check. A partition id out of range,
+	// a missing route or a partition without an owner would crash this member.
+	for partID, data := range table {
+		if partID >= r.config.PartitionCount {
+			return fmt.Errorf("%w: invalid partition id: %d", protocol.ErrInvalidArgument, partID)
+		}
+		if data == nil || len(data.Owners) == 0 {
+			return fmt.Errorf("%w: partition %d has no owner", protocol.ErrInvalidArgument, partID)
+		}
+	}
 	return nil
 }
 
